@@ -354,7 +354,7 @@ func init() {
 		}
 
 		if *caseFile != "" {
-			var c struct {
+			type oneCase struct {
 				P     Pat      `json:"p"`
 				O     []string `json:"o"`
 				Dia   string   `json:"dia"`
@@ -363,27 +363,35 @@ func init() {
 				B     []int    `json:"b"`
 				Repls [][]int  `json:"repls"`
 			}
+			var cs []oneCase
 			data, err := os.ReadFile(*caseFile)
 			if err == nil {
-				err = json.Unmarshal(data, &c)
+				if err = json.Unmarshal(data, &cs); err != nil {
+					var one oneCase
+					if err = json.Unmarshal(data, &one); err == nil {
+						cs = []oneCase{one}
+					}
+				}
 			}
 			if err != nil {
 				fmt.Fprintln(os.Stderr, err)
 				return 2
 			}
-			text := PrintPat(c.P, PrintOpts{X: has(c.O, "x"), RE2: c.Dia == "re2"})
-			re, err := compile(text, optBits(c.O, c.Dia, c.RTL))
-			if err != nil {
-				fmt.Fprintln(os.Stderr, "compile error:", err)
-				return 2
+			for i, c := range cs {
+				text := PrintPat(c.P, PrintOpts{X: has(c.O, "x"), RE2: c.Dia == "re2"})
+				re, err := compile(text, optBits(c.O, c.Dia, c.RTL))
+				if err != nil {
+					fmt.Fprintln(os.Stderr, "compile error:", err)
+					return 2
+				}
+				rec := mkRec(i+1, c.P, c.O, c.Dia, c.RTL, c.Exact, text, re)
+				b := make([]byte, len(c.B))
+				for j, x := range c.B {
+					b[j] = byte(x)
+				}
+				rec.Cases = append(rec.Cases, apiCase(re, b, c.Repls, []int{-1, 0, 1, 2}, c.RTL))
+				enc.Encode(rec)
 			}
-			rec := mkRec(1, c.P, c.O, c.Dia, c.RTL, c.Exact, text, re)
-			b := make([]byte, len(c.B))
-			for i, x := range c.B {
-				b[i] = byte(x)
-			}
-			rec.Cases = append(rec.Cases, apiCase(re, b, c.Repls, []int{-1, 0, 1, 2}, c.RTL))
-			enc.Encode(rec)
 			return 0
 		}
 
@@ -397,8 +405,9 @@ func init() {
 		alpha := inputAlphabet(cfg)
 		compileErrs, cases, skipped := 0, 0, 0
 		for id := 1; id <= *n; id++ {
-			t := g.Pattern()
 			o := randOpts(g, "imsnx", 0.15)
+			g.N = has(o, "n")
+			t := g.Pattern()
 			dia := "net"
 			if exact && g.chance(0.1) {
 				dia = "re2"
